@@ -142,9 +142,10 @@ def glyph_model(p):
         return p.glyphs
     try:
         head, maxp = D.read_head(p.tables[b"head"]), D.read_maxp(p.tables[b"maxp"])
-        loca = D.read_loca(p.tables[b"loca"], head["indexToLocFormat"], maxp["numGlyphs"])
-        glyphs, probs = D.read_glyf(p.tables[b"glyf"], loca)
+        glyphs, probs, loca = _glyph_list(p, head, maxp, False)
     except (D.Bad, KeyError):
+        return None
+    if glyphs is None:
         return None
     return glyphs if all(g is not None for g in glyphs) else None
 
@@ -610,10 +611,10 @@ def setup():
 
 # ============================================================================ cases
 SMALL, MEDIUM = 12000, 120000
-WORKLOADS_QUICK = ["subset:0", "woff2compress:0", "ttx:0", "instancer:0"]
+WORKLOADS_QUICK = ["subset:0", "subset:1", "woff2compress:0", "ttx:0", "ttx:1", "instancer:0", "merge:0", "varlib:0"]
 WORKLOADS_THOROUGH = (["subset:%d" % i for i in range(10)] + ["woff2compress:%d" % i for i in range(6)]
                       + ["ttx:%d" % i for i in range(8)] + ["instancer:%d" % i for i in range(8)]
-                      + ["merge:%d" % i for i in range(4)] + ["varlib:%d" % i for i in range(4)])
+                      + ["merge:%d" % i for i in range(4)] + ["varlib:%d" % i for i in range(5)])
 
 
 def cases(tier, seed):
@@ -627,16 +628,17 @@ def cases(tier, seed):
         cid = "corpus:%s%s" % (rec["path"], "" if rec["member"] is None else "#%d" % rec["member"])
         size = rec["size"]
         if T:
-            groups = 24 if size < SMALL else (16 if size < MEDIUM else 6)
+            groups = 24 if size < SMALL else (16 if size < MEDIUM else 4)
         else:
             groups = 2 if size < SMALL else 1
             if rec["path"].startswith("ttLib/tables/data/aots/") and rnd.random() < 0.5:
                 groups = 1
         out.append({"id": cid, "kind": "font", "src": "corpus", "path": rec["path"], "member": rec["member"],
-                    "groups": groups, "seed": seed, "timeout": 300})
+                    "groups": groups, "seed": seed, "timeout": 300 if size < MEDIUM else 900})
     for name in G.NAMES:
+        big = name.startswith("loca_") and name != "loca_odd_small"       # 128 KB glyf tables
         out.append({"id": "gen:" + name, "kind": "font", "src": "gen", "name": name,
-                    "groups": 24 if T else 4, "seed": seed, "timeout": 300})
+                    "groups": (8 if big else 24) if T else (3 if big else 4), "seed": seed, "timeout": 900 if big else 300})
     for n in G.TABLE_COUNTS if T else G.TABLE_COUNTS_QUICK:
         out.append({"id": "tables:%d" % n, "kind": "tables", "n": n, "seed": seed})
     ttcs = sorted({r["path"] for r in corpus.fonts() if r["ext"] == "ttc"})
